@@ -132,6 +132,7 @@ type world struct {
 	procFirst  map[int]bool // incarnation numbers that are the first of a process
 	chainEnds  map[int]bool // ids of final chain links that have been handled
 	childPIDs  [][]*actor.PID
+	swapped    map[int]bool
 }
 
 func (w *world) add(e Entry) {
@@ -230,6 +231,9 @@ func (r *rcv) Receive(c *actor.Context) {
 	case UMsg:
 		e.Kind, e.ID, e.MsgOK = "user", m.ID, true
 		w.add(e)
+		if w.spec.KidSwap && w.spec.Children > 0 {
+			w.swapKid(c)
+		}
 		if w.spec.Replies && e.From >= 1 {
 			// the sender is a PID nobody answers to: the reply is a dead letter, the delivery is not
 			c.Respond(AckMsg{ID: m.ID})
@@ -286,6 +290,32 @@ func (r *rcv) Receive(c *actor.Context) {
 		e.Kind = "foreign:" + reflect.TypeOf(c.Message()).String()
 		w.add(e)
 	}
+}
+
+// swapKid (once per process, from inside Receive): the actor looks at its children, its first child
+// leaves, and a child with another id takes the place - the number of children is what it was, the
+// children are not.  From then on the replacement is what must be stopped with the actor.
+func (w *world) swapKid(c *actor.Context) {
+	w.mu.Lock()
+	n := len(w.childPIDs)
+	if n == 0 || w.swapped[n] {
+		w.mu.Unlock()
+		return
+	}
+	w.swapped[n] = true
+	old := w.childPIDs[n-1][0]
+	w.mu.Unlock()
+	_ = c.Children()
+	select {
+	case <-c.Engine().Poison(old).Done():
+	case <-time.After(20 * time.Second):
+		return
+	}
+	np := c.SpawnChild(func() actor.Receiver { return &childRcv{w: w, idx: 50 + n, parentInc: 0} }, "kid", actor.WithID(fmt.Sprintf("r%d", n)))
+	_ = c.Children()
+	w.mu.Lock()
+	w.childPIDs[n-1][0] = np
+	w.mu.Unlock()
 }
 
 type childRcv struct {
@@ -538,7 +568,7 @@ func Run(spec Spec, waitOrphans bool) (*Obs, *Sim, error) {
 	}
 	w := &world{spec: spec, e: e, gateIn: make(chan struct{}, 1), gateOut: make(chan struct{}),
 		syncCh: make(chan int, 16), fenceCh: make(chan int, 16), helperGo: make(chan struct{}),
-		helperDone: make(chan struct{}), procFirst: map[int]bool{}, chainEnds: map[int]bool{}}
+		helperDone: make(chan struct{}), procFirst: map[int]bool{}, chainEnds: map[int]bool{}, swapped: map[int]bool{}}
 	w.evCond = sync.NewCond(&w.mu)
 	w.evNote = make(chan struct{}, 1)
 	for i := 0; i < 3; i++ {
